@@ -13,7 +13,7 @@
              of a failed node decides whether the search may go on.  [lookup false]
              is the code as it is now (after the fix: commit e897fef for finding
              C02-F1: a failed free-wildcard node consults its own flag),
-             [lookup true] the code of the pinned commit (the parent node's flag).
+             [lookup true] the code before e897fef (the parent node's flag).
     Ops      [AddRuleSet] / [UpdateRuleSet] / [DeleteRuleSet], transcribed:
              diff by SameAs / EqualTo, delete-then-add on a clone, same-source
              constraint per node, swap only on success.
